@@ -52,10 +52,13 @@ func parse(str string, l ZitiQlListener, el antlr.ErrorListener, debug bool) {
 	stream := antlr.NewCommonTokenStream(lexer, 0)
 	p.SetInputStream(stream)
 
+	// a pooled parser still carries the listeners of its previous use (the error collector of another
+	// caller): always start from none, and leave none behind
+	p.RemoveErrorListeners()
+	defer p.RemoveErrorListeners()
 	if debug {
+		p.AddErrorListener(antlr.ConsoleErrorListenerINSTANCE)
 		p.AddErrorListener(antlr.NewDiagnosticErrorListener(true))
-	} else {
-		p.RemoveErrorListeners()
 	}
 
 	p.AddErrorListener(el)
